@@ -112,6 +112,10 @@ fn container_vals(ch: &mut Choices, out: &mut Vec<GenVal>) {
         ("enum", &[("E1(\"a\")", "call"), ("E1.values()[0]", "values"), ("E1(\"b\")", "other"), ("E2(\"a\")", "other-decl")]),
         ("range", &[("range(3)", "stop"), ("range(0, 3)", "start-stop"), ("range(0, 3, 1)", "step"), ("range(0, 4, 2)", "stride"), ("range(0, 3, 2)", "stride-equal-content"), ("range(0)", "empty"), ("range(5, 5)", "empty2")]),
         ("bool", &[("True", "literal"), ("(1 == 1)", "computed"), ("(not False)", "not"), ("False", "other"), ("bool(1)", "conv"), ("1", "int-one"), ("0", "int-zero"), ("None", "none")]),
+        // values with a canonical static representation (empty tuple, empty and one-character strings) reached by
+        // literal and by run-time construction
+        ("empty-tuple", &[("()", "literal"), ("tuple([])", "from-list"), ("(opaque(()) + opaque(()))", "concat"), ("(1,)[1:]", "slice"), ("((1,) * 0)", "repeat"), ("tuple([x for x in []])", "comprehension"), ("tuple(opaque([]))", "from-opaque"), ("(opaque((1,))[1:] + opaque(()))", "slice-concat"), ("(1,)", "other")]),
+        ("tiny-string", &[("\"\"", "literal"), ("\"a\"[1:]", "slice"), ("(opaque(\"\") + opaque(\"\"))", "concat"), ("\"\".join([])", "join"), ("(\"x\" * 0)", "repeat"), ("\"a\"", "one-literal"), ("\"ab\"[0]", "one-index"), ("chr(97)", "one-chr"), ("(opaque(\"\") + opaque(\"a\"))", "one-concat"), ("\"é\"", "one-nonascii"), ("\"éa\"[0]", "one-nonascii-index")]),
         ("nested", &[("((1, 2), \"a\")", "literal"), ("(tuple([1, 2]), \"a\")", "built"), ("((1, 2.0), \"a\")", "float-inside"), ("([1, 2], \"a\")", "list-inside"), ("((1, 2), \"a\", ())", "other")]),
     ];
     let (fam, reps) = fams[ch.idx(fams.len())];
@@ -175,6 +179,8 @@ fn gen_vals(ch: &mut Choices) -> Vec<GenVal> {
     out.truncate(14);
     out
 }
+
+const LITS: &[&str] = &["()", "\"\"", "\"a\"", "\"é\"", "0", "1", "-1", "2147483648", "1.0", "0.0", "True", "False", "None", "(1, \"a\")", "\"abc\"", "(1,)"];
 
 const PRELUDE: &str = r#"
 R1 = record(a = int | float, b = str)
@@ -303,7 +309,10 @@ fn run_case(vals: &[GenVal], frozen: bool) -> (Laws, Vec<String>) {
         a_src.push_str(&format!("    {},\n", v.src));
     }
     a_src.push_str("]\n");
-    let b_src = "F = [[facts(a, b) for b in vals] for a in vals]\n";
+    // comparisons against compile-time constants take specialised instructions: every value against every literal of LITS
+    let lit_rows: String = LITS.iter().map(|l| format!("    [[v == {l}, {l} == v, v != {l}, v in [{l}], v in ({l},)] for v in vals],\n")).collect();
+    let b_src = format!("F = [[facts(a, b) for b in vals] for a in vals]\nLITVALS = [{}]\nLITCMP = [\n{lit_rows}]\n", LITS.join(", "));
+    let b_src = b_src.as_str();
     let cfg = sl::RunCfg::default();
     let mut laws = Laws::default();
     let mut notes = Vec::new();
@@ -321,6 +330,26 @@ fn run_case(vals: &[GenVal], frozen: bool) -> (Laws, Vec<String>) {
             .unwrap_or_default();
         let facts = |i: usize, j: usize| rows.get(i).and_then(|r: &Vec<String>| r.get(j)).cloned();
         check_laws(vals, &list, &facts, laws);
+        // literal comparisons: `v == <literal>` (both orders), `!=`, `in [literal]`, `in (literal,)` must agree with
+        // Value::equals(v, value of the literal)
+        let litvals: Vec<Value> = module.get("LITVALS").and_then(ListRef::from_value).map(|l| l.iter().collect()).unwrap_or_default();
+        let litcmp: Vec<Vec<String>> = module
+            .get("LITCMP")
+            .and_then(ListRef::from_value)
+            .map(|rows| rows.iter().map(|r| ListRef::from_value(r).map(|r| r.iter().map(sl::encode).collect()).unwrap_or_default()).collect())
+            .unwrap_or_default();
+        for (k, lv) in litvals.iter().enumerate() {
+            for (i, v) in list.iter().enumerate() {
+                laws.evals += 1;
+                let Ok(e) = v.equals(*lv) else { continue };
+                let want = if e { "[T,T,F,T,T]" } else { "[F,F,T,F,F]" };
+                if let Some(got) = litcmp.get(k).and_then(|r| r.get(i)) {
+                    if got != want {
+                        laws.fails.push(("literal-comparison".into(), format!("v = {} [{}] against the literal {}: Value::equals says {e}, but [v == L, L == v, v != L, v in [L], v in (L,)] = {got}", vals[i].src, vals[i].repr, LITS[k])));
+                    }
+                }
+            }
+        }
     };
     if frozen {
         let (out, fm) = sl::run_and_freeze("a.star", &a_src, &cfg, &[]);
